@@ -88,7 +88,8 @@ pub fn run_case(c: &Case) {
     sv::POLLS.store(0, Ordering::Relaxed);
     sv::STOP_AT_POLL.store(if c.stop == 0 { u64::MAX } else { c.stop }, Ordering::Relaxed);
     *sv::RECORDER.lock().unwrap() = Some(Vec::new());
-    let limits = SearchLimits::new().nodes(c.nodes);
+    // exactly what `Uci::go` builds for `go depth D [nodes N]`: the depth limit is in the limits too
+    let limits = SearchLimits::new().nodes(c.nodes).depth(Some(c.depth));
     let mut search = Search::new(&board, Some(limits));
     let outcome = std::panic::catch_unwind(std::panic::AssertUnwindSafe(|| {
         search.search(&SimpleEvaluator, Some(c.depth));
